@@ -83,3 +83,10 @@ func (e *VerifC46SigningExecutor) SignBatch(
 	signatures, err := e.se.signBatch(ctx, messages, startBlock)
 	return len(signatures), err
 }
+
+// VerifC46AnnouncementBlocks returns signingAttemptAnnouncementDelayBlocks and
+// signingAttemptAnnouncementActiveBlocks.
+func VerifC46AnnouncementBlocks() (uint64, uint64) {
+	return signingAttemptAnnouncementDelayBlocks,
+		signingAttemptAnnouncementActiveBlocks
+}
